@@ -353,7 +353,9 @@ where
     where
         I: IntoIterator<Item = T>,
     {
-        let memory_items = self.config.memory_buffer_size / std::mem::size_of::<T>().max(1);
+        // At least one element must fit, otherwise nothing would ever be read from the input
+        // and the whole data set would be dropped silently.
+        let memory_items = (self.config.memory_buffer_size / std::mem::size_of::<T>().max(1)).max(1);
         let mut heap = BinaryHeap::with_capacity(memory_items);
         let mut input_iter = input.into_iter();
         let mut current_run = 0;
